@@ -658,16 +658,37 @@ type symInfo struct {
 }
 
 func collectSyms(ts []*Term, skipBound bool) []symInfo {
-	seen := map[int]bool{}
-	syms := map[string]symInfo{}
-	var walk func(t *Term, bound map[string]bool)
-	walk = func(t *Term, bound map[string]bool) {
-		if len(bound) == 0 {
+	// bound variable names are globally fresh, so a name is bound iff some quantifier in the query binds it
+	bound := map[string]bool{}
+	{
+		seen := map[int]bool{}
+		var walk func(t *Term)
+		walk = func(t *Term) {
 			if seen[t.id] {
 				return
 			}
 			seen[t.id] = true
+			if t.Op == "forall" || t.Op == "exists" {
+				for _, v := range t.Args[:len(t.Args)-1] {
+					bound[v.Name] = true
+				}
+			}
+			for _, a := range t.Args {
+				walk(a)
+			}
 		}
+		for _, t := range ts {
+			walk(t)
+		}
+	}
+	seen := map[int]bool{}
+	syms := map[string]symInfo{}
+	var walk func(t *Term)
+	walk = func(t *Term) {
+		if seen[t.id] {
+			return
+		}
+		seen[t.id] = true
 		switch t.Op {
 		case "var":
 			if !bound[t.Name] {
@@ -682,26 +703,18 @@ func collectSyms(ts []*Term, skipBound bool) []symInfo {
 				syms["f:"+t.Name] = symInfo{name: t.Name, sort: t.Sort, args: as, isFun: true}
 			}
 			for _, a := range t.Args {
-				walk(a, bound)
+				walk(a)
 			}
 		case "forall", "exists":
-			n := len(t.Args) - 1
-			nb := map[string]bool{}
-			for k := range bound {
-				nb[k] = true
-			}
-			for _, v := range t.Args[:n] {
-				nb[v.Name] = true
-			}
-			walk(t.Args[n], nb)
+			walk(t.Args[len(t.Args)-1])
 		default:
 			for _, a := range t.Args {
-				walk(a, bound)
+				walk(a)
 			}
 		}
 	}
 	for _, t := range ts {
-		walk(t, nil)
+		walk(t)
 	}
 	var out []symInfo
 	for _, s := range syms {
